@@ -581,3 +581,9 @@ Proof.
   intros n tr s h H. destruct (blk_unique_run _ _ _ H h) as [A B]. split; auto. split; auto.
   intros t G Ht. unfold step. rewrite Ht. destruct (B G) as [K|K]; rewrite K; reflexivity.
 Qed.
+
+(* ---- 9. a panic in the function passed to TemporarilyRelease ---- *)
+
+(* block()'s re-acquire is deferred: whether f returns or panics, the same operations follow *)
+Lemma panic_same_as_return_lemma : forall fx s t, step fx s (LFPanic t) = step fx s (LFRet t).
+Proof. reflexivity. Qed.
